@@ -522,6 +522,22 @@ def check_heap(ctx, db):
         iv = next((v for v in f.walk() if v.k == 'VarDecl' and v.n == ivar), None)
         ctx.check(iv is not None and norm(iv.child('init').text()) == '(count - 1)' and norm(loop.child('cond').text()) == '(%s > 0)' % ivar, 'R-LOOP', 'heap_sort/extraction-range', loop.loc(), 'extraction runs from the last index down to 1')
     ctx.require('R-BOUND.inclusive comparisons', n, 4)
+    # saved elements are copies: a reference to items[k] would change under the shifts/swaps that follow
+    na = 0
+    for qn in ('gdstk::insertion_sort', 'gdstk::sift_down', 'gdstk::partition'):
+        for f in db.fn(qn, all=True)[:1]:
+            ctx.touch(f)
+            writes = [x for x in f.walk() if is_assign(x) and 'items[' in x.child('lhs').text()] + [c for c in f.walk() if c.k == 'CallExpr' and (c.callee or '').endswith('swap_values')]
+            for v in f.walk():
+                if v.k == 'VarDecl' and v.child('init') is not None and 'items[' in v.child('init').text() and not re.search(r'int|long', (v.t or '').split('&')[0]) :
+                    later = [w for w in writes if w.id > v.id]
+                    used_after = any(x.k == 'DeclRefExpr' and x.n == v.n and later and x.id > later[0].id for x in f.walk())
+                    if not (later and used_after):
+                        continue
+                    na += 1
+                    ctx.check('&' not in (v.t or ''), 'R-ALIAS', '%s/%s-is-a-copy' % (qn.replace('gdstk::', ''), v.n), v.loc(), '`%s` holds a copy of the element, so later stores into the array cannot change it' % v.n,
+                              '`%s` is a reference (%s) to an array element that the following shifts/swaps overwrite: the saved value is lost' % (v.n, v.t))
+    ctx.require('R-ALIAS saved elements', na, 2)
 
 
 def check_single_removal(ctx, db):
@@ -569,7 +585,7 @@ def run(ctx):
 
 
 MANIFEST = dict(
-   text='Decides structural necessary conditions of the container models on all paths: (1) check-then-use null contradictions in every property-list function (a pointer the function itself null-tests, re-assigned from a list tail and dereferenced untested); (2) the four open-addressing tables (Map<T>, Set<T>, TagMap, StyleMap; every member instantiated explicitly) have control skeletons equal to a frozen reference after abstracting the table-specific empty-slot predicate (probe wrap at items+capacity, load-factor test before get_slot, count++ only on an empty slot, del = empty + count-- + cluster re-insertion until the first empty slot, resize re-inserts every occupied item then clears, next bounded by items+capacity), payload obligations (old slot emptied, every item field written), count==0 guard before every look-up; (3) Array<T> bookkeeping; (4) property-list copies append at the tail and deep-copy, and remove_property leaves the function right after the first removal unless all occurrences were requested. (5) heap sort (introsort fallback): child/parent index formulas evaluated for small indices, every comparison of a child index with the inclusive bound `end` is `<=`, the build phase passes count-1, and after the maximum is swapped to items[end] the sift range excludes that slot. Does not decide equivalence with an abstract map/multimap over operation histories, nor that sort orders every input (value-dependent; only the index discipline of the heap part is decided).',
+   text='Decides structural necessary conditions of the container models on all paths: (1) check-then-use null contradictions in every property-list function (a pointer the function itself null-tests, re-assigned from a list tail and dereferenced untested); (2) the four open-addressing tables (Map<T>, Set<T>, TagMap, StyleMap; every member instantiated explicitly) have control skeletons equal to a frozen reference after abstracting the table-specific empty-slot predicate (probe wrap at items+capacity, load-factor test before get_slot, count++ only on an empty slot, del = empty + count-- + cluster re-insertion until the first empty slot, resize re-inserts every occupied item then clears, next bounded by items+capacity), payload obligations (old slot emptied, every item field written), count==0 guard before every look-up; (3) Array<T> bookkeeping; (4) property-list copies append at the tail and deep-copy, and remove_property leaves the function right after the first removal unless all occurrences were requested. (5) heap sort (introsort fallback): child/parent index formulas evaluated for small indices, every comparison of a child index with the inclusive bound `end` is `<=`, the build phase passes count-1, after the maximum is swapped to items[end] the sift range excludes that slot, and the elements saved by insertion_sort, sift_down and partition are copies, not references into the array being rearranged. Does not decide equivalence with an abstract map/multimap over operation histories, nor that sort orders every input (value-dependent; only the index discipline of the heap part is decided).',
    note='Trusted: clang 14 front end, gx, sa rules; the frozen reference skeletons in sa/props/C20.py were confirmed by reading the pinned tree (a consistent refactor of all tables is reported as differing from the reference, exit 1 naming the method, to be re-confirmed by a human); hash() not analysed.',
    technique='clone-family comparison with predicate abstraction over typed ASTs + nullness dataflow (check-then-use contradiction) over the clang CFG',
    design='§4 C20')
